@@ -247,7 +247,8 @@ def run_cfg(case, cfg, ref):
     exceeded = False
     try:
         with seams.install_rng(["solvor.milp", "solvor.lns"], plan), budget.steps(STEP_LIMIT):
-            res = m.solve_milp(list(case["c"]), [list(r) for r in case["A"]], list(case["b"]), list(case["integers"]),
+            inp = case.setdefault("_inputs", (list(case["c"]), [list(r) for r in case["A"]], list(case["b"]), list(case["integers"])))
+            res = m.solve_milp(inp[0], inp[1], inp[2], inp[3],
                                minimize=case["minimize"], warm_start=warm_start_for(case, cfg, ref), solution_limit=cfg["solution_limit"],
                                heuristics=cfg["heuristics"], lns_iterations=cfg["lns_iterations"], lns_destroy_frac=cfg["lns_destroy_frac"],
                                seed=cfg["seed"])
@@ -311,6 +312,7 @@ def judge(case, cfg, res, exc, exceeded, ref, o: Outcome, label):
 
 
 def execute(case) -> Outcome:
+    case = dict(case)  # the option sets of one case share the same c/A/b/integers objects (a caller re-solving one model)
     o = Outcome()
     budget.install(["solvor.milp", "solvor.simplex", "solvor.lns"])
     ref = reference(case)
